@@ -728,7 +728,7 @@ impl<P: SizedPayload> St<P> {
                 }
             } else {
                 // fresh allocation
-                let block = alloc::classify(da).unwrap_or_else(alloc::Block::none);
+                let block = block_for::<P>(da).unwrap_or_else(alloc::Block::none);
                 let survivors = eff.allocs.iter().filter(|b| alloc::block_by_seq(b.seq).map(|x| x.live).unwrap_or(false)).count();
                 if survivors != 1 {
                     viol::report(PW, "W.alloc-effect", format!("{}: expected one new block, got {}", how, survivors));
